@@ -46,6 +46,7 @@ func checkC16(run *Run, res *Result) {
 	type scrapeCall struct {
 		n    int
 		high map[int]uint64
+		all  map[int][]uint64
 	}
 	calls := map[int]*scrapeCall{}
 	inHook := map[int]bool{} // member -> scrape in progress
@@ -88,7 +89,7 @@ func checkC16(run *Run, res *Result) {
 			lastInfo[e.M] = [2]int{int(e.I), int(e.U)}
 		case journal.KCall:
 			if e.S == "scrape" {
-				calls[e.M] = &scrapeCall{n: e.N, high: map[int]uint64{}}
+				calls[e.M] = &scrapeCall{n: e.N, high: map[int]uint64{}, all: map[int][]uint64{}}
 				inHook[e.M] = strings.HasPrefix(e.S2, "inside ")
 			}
 			if e.S == "Close" {
@@ -97,6 +98,7 @@ func checkC16(run *Run, res *Result) {
 		case journal.KSeqnos:
 			if c := calls[e.M]; c != nil && e.S == "d" {
 				for j := 0; j+1 < len(e.L); j += 2 {
+					c.all[int(e.L[j])] = append(c.all[int(e.L[j])], e.L[j+1]) // (another query of the same member - a session being opened - may be answered in the window too)
 					if e.L[j+1] > c.high[int(e.L[j])] {
 						c.high[int(e.L[j])] = e.L[j+1]
 					}
@@ -207,6 +209,15 @@ func checkC16(run *Run, res *Result) {
 						}
 						if h < uint64(seq) {
 							res.probe("high-seqno-below-position")
+						}
+						for _, hh := range c.all[vb] {
+							alt := 0.0
+							if float64(hh) > seq {
+								alt = float64(hh) - seq
+							}
+							if val == alt {
+								want = alt // the scrape used this answer
+							}
 						}
 						if val != want {
 							res.violate("C16", "R2-lag", e.N, fmt.Sprintf("vb=%d", vb), "member %d vb %d: cbgo_lag_current=%v but the node reported high seqno %d to this scrape and the reported position is %v (expected max(0, high-seq)=%v)", e.M, vb, val, h, seq, want)
